@@ -56,6 +56,10 @@ T = {
  "C40-2": ("C40", "a SET column with 33-56 members followed by another column", "missed", "", "serialize/metadata length disagreement is an expression-level agreement; comparing formulas would fire on equivalent refactors of one side"),
  "C45-1": ("C45", "a commit whose Execute lands between reading nextHead and opening the attempt", "strengthened", "C45 attempt-opened-under-lock", ""),
  "C45-2": ("C45", "branch created / fast-forwarded / reset to an already replicated commit", "strengthened", "C45 push-hook-ack-after-ref-move", ""),
+ "C08-1": ("C08", "full GC after commit+tag, gc, then branch rewound/deleted (chunks only in old old-gen files, reachable only from new-gen roots)", "strengthened", "C08 generational-order (new-generation filter derives from AddChunksToStore)", "missed by the first C08 rule set"),
+ "C08-2": ("C08", "chunk X put before the GC and left uncommitted, identical chunk put again during the GC, parent committed after the GC", "missed", "", "the keeper consultation on the chunkExists outcome is decided by a value computed after the retry loop; the rule set models the keeper handshake per front-end, not per memtable outcome (patch re-based onto fix b3e3cc0, see REBASE_NOTE.txt)"),
+ "C08-3": ("C08", "a write+commit landing between the root read and BeginGC", "first-run", "C08 root-in-new-gen (reported as undecided: the root insertion is no longer found in the GC literals)", "reported through the rule's site floor, i.e. generically"),
+ "C08-4": ("C08", "full GC with a fault between the two table swaps", "strengthened", "C08 generational-order (old generation swapped only after the new generation's swap)", "missed by the first C08 rule set"),
  "C20-1": ("C20", "a working-set write wins the root CAS between a clean-branch delete's read and its CAS", "first-run", "C20 ws-clean-before-edit", ""),
  "C20-2": ("C20", "several sessions that all saw 'no working set yet' create it concurrently", "first-run", "C20 compare-before-edit", ""),
  "C21-1": ("C21", "first commit on a branch without a working set, with the second of two root updates failing", "first-run", "C21 layer-single-write", ""),
